@@ -339,6 +339,18 @@ func (d *emuCurveDesc) genEmuCases(rng *rand.Rand, native *big.Int) []*emuCase {
 		{"P=2G,s=1,1", mulG(2), bi(1), bi(1), false},
 		{"P=2G,s=1,2(P1=P2)", mulG(2), bi(1), bi(2), false},
 	}
+	// the two partial results coincide: P = [t]G and s2*t = ±s1
+	{
+		t := rk()
+		Pt := c.mul(G, t)
+		k1 := rk()
+		k0 := new(big.Int).Mul(k1, new(big.Int).ModInverse(t, c.R))
+		k0.Mod(k0, c.R)
+		jcs = append(jcs,
+			jc{"coincide:[s2]P=[s1]G(sum=[2*s1]G)", Pt, k0, k1, false},
+			jc{"coincide:[s2]P=-[s1]G(sum=inf)", Pt, new(big.Int).Sub(c.R, k0), k1, false},
+		)
+	}
 	if d.glv {
 		l := d.lambda
 		jcs = append(jcs,
@@ -350,7 +362,9 @@ func (d *emuCurveDesc) genEmuCases(rng *rand.Rand, native *big.Int) []*emuCase {
 	for _, complete := range []bool{false, true} {
 		for _, j := range jcs {
 			want := c.add(c.mul(G, j.k1), c.mul(j.p, j.k0))
-			in := complete || (!j.unsafe && !want.Inf)
+			// without an endomorphism the method is two scalar multiplications
+			// joined by AddUnified: a sum at infinity is inside its domain
+			in := complete || (!j.unsafe && (!want.Inf || !d.glv))
 			mk("JointScalarMulBase", complete, j.class, []wpt{j.p}, []*big.Int{j.k0, j.k1}, want, in)
 		}
 	}
@@ -362,6 +376,15 @@ func (d *emuCurveDesc) genEmuCases(rng *rand.Rand, native *big.Int) []*emuCase {
 		ks     []*big.Int
 		unsafe bool
 	}
+	// coinciding partial results: P1 = [t]P0 with s1*t = s0
+	coT := rk()
+	coT1 := c.mul(R1, coT)
+	coS0 := rk()
+	coS1 := new(big.Int).Mul(coS0, new(big.Int).ModInverse(coT, c.R))
+	coS1.Mod(coS1, c.R)
+	// [coU2]P2 equals the joint result [coS0]R1 + [coU1]R2 of the first pair
+	coU1, coU2 := rk(), rk()
+	coT3 := c.mul(c.add(c.mul(R1, coS0), c.mul(R2, coU1)), new(big.Int).ModInverse(coU2, c.R))
 	mcs := []mc{
 		{"n=1,random", []wpt{R1}, []*big.Int{rk()}, false},
 		{"n=2,random", []wpt{R1, R2}, []*big.Int{rk(), rk()}, false},
@@ -375,6 +398,10 @@ func (d *emuCurveDesc) genEmuCases(rng *rand.Rand, native *big.Int) []*emuCase {
 		{"n=2,P,-P,same-scalar(sum=inf)", []wpt{R1, c.neg(R1)}, []*big.Int{bi(5), bi(5)}, true},
 		{"n=3,partial-sums-cancel", []wpt{R1, R2, R1}, []*big.Int{bi(3), bi(1), rm1}, true},
 		{"n=4,pairs-equal", []wpt{R1, R2, R1, R2}, []*big.Int{bi(7), bi(9), bi(7), bi(9)}, true},
+		{"coincide:n=2,[s1]P1=[s0]P0", []wpt{R1, coT1}, []*big.Int{coS0, coS1}, false},
+		{"coincide:n=2,[s1]P1=-[s0]P0(sum=inf)", []wpt{R1, coT1}, []*big.Int{coS0, new(big.Int).Sub(c.R, coS1)}, false},
+		{"coincide:n=3,[s1]P1=[s0]P0", []wpt{R1, coT1, R3}, []*big.Int{coS0, coS1, rk()}, false},
+		{"coincide:n=3,[s2]P2=[s0]P0+[s1]P1", []wpt{R1, R2, coT3}, []*big.Int{coS0, coU1, coU2}, true},
 		{"n=2,oversized", []wpt{R1, R2}, []*big.Int{new(big.Int).Add(c.R, bi(3)), d.oversized(rng)}, false},
 	}
 	for _, complete := range []bool{false, true} {
@@ -392,7 +419,9 @@ func (d *emuCurveDesc) genEmuCases(rng *rand.Rand, native *big.Int) []*emuCase {
 			for i := range m.ps {
 				want = c.add(want, c.mul(m.ps[i], m.ks[i]))
 			}
-			mk("MultiScalarMul", complete, m.class, m.ps, m.ks, want, complete || (!m.unsafe && !want.Inf))
+			// n=2 without an endomorphism: two scalar multiplications joined by AddUnified
+			unified := !d.glv && len(m.ps) == 2
+			mk("MultiScalarMul", complete, m.class, m.ps, m.ks, want, complete || (!m.unsafe && (!want.Inf || unified)))
 		}
 		// folding variant: sum gamma^i P_i
 		for _, f := range []struct {
